@@ -67,6 +67,28 @@ func genC05(t *rapid.T) C05Case {
 					ops = append(ops, world.Op{Op: op.Op, Obj: op.Obj.Clone()})
 				}
 			}
+		case g.chance("globalflip", 10) && g.W.Get(world.KConfigMap, world.GlobalCM) != nil && b+1 < nb:
+			// a global option that is rendered inside the backend sections changes, and is set back by the next batch
+			// (both are full syncs that leave every backend as it was)
+			cur := g.W.Get(world.KConfigMap, world.GlobalCM)
+			mut := cur.Clone()
+			if mut.Data == nil {
+				mut.Data = map[string]string{}
+			}
+			key := g.pick("flipkey", []string{"ssl-redirect-code", "cookie-key"})
+			vals := map[string][]string{"ssl-redirect-code": {"301", "307"}, "cookie-key": {"k1", "k2"}}[key]
+			if mut.Data[key] == vals[0] {
+				mut.Data[key] = vals[1]
+			} else {
+				mut.Data[key] = vals[0]
+			}
+			back := cur.Clone()
+			for _, op := range []world.Op{{Op: "update", Obj: mut}, {Op: "update", Obj: back}} {
+				_, _, _ = g.W.Apply(op)
+				c.Batches = append(c.Batches, []world.Op{{Op: op.Op, Obj: op.Obj.Clone()}})
+				c.Split = append(c.Split, -1)
+			}
+			b++
 		case g.chance("revert", 12):
 			// change and revert one ingress inside one batch
 			ex := g.existing(world.KIngress)
